@@ -433,6 +433,13 @@ func (tx *tableEx) term(v ssa.Value, row *PathRow, depth int) *Term {
 }
 
 func (tx *tableEx) callTerm(c *ssa.Call, idx int, v ssa.Value, row *PathRow, depth int) *Term {
+	if bi, ok := c.Call.Value.(*ssa.Builtin); ok && (bi.Name() == "min" || bi.Name() == "max") && len(c.Call.Args) >= 1 {
+		t := &Term{Kind: "minmax", Note: bi.Name()}
+		for _, a := range c.Call.Args {
+			t.Sub = append(t.Sub, tx.term(a, row, depth+1))
+		}
+		return t
+	}
 	callee := c.Call.StaticCallee()
 	if tx.inlinable(callee) {
 		t := &Term{Kind: "call", Fn: callee}
@@ -484,6 +491,18 @@ func (tx *tableEx) eval(t *Term, as Assign, depth int) Val {
 		return Val{Kind: "nil"}
 	case "fresh":
 		return Val{Kind: "ref", Ref: "fresh:" + t.Note}
+	case "minmax":
+		var best Val
+		for i, sub := range t.Sub {
+			v := tx.eval(sub, as, depth+1)
+			if v.Kind != "int" {
+				return Val{Kind: "bad"}
+			}
+			if i == 0 || (t.Note == "min" && v.K < best.K) || (t.Note == "max" && v.K > best.K) {
+				best = v
+			}
+		}
+		return best
 	case "atom":
 		ai := tx.atoms[t.Atom]
 		k, ok := as[t.Atom]
